@@ -163,6 +163,33 @@ func runC16(r *fw.Runner) {
 				}
 			})
 		}
+		// the smallest x values that lie on the curve, starting with x = 0 (the NIST curves have two points there: a coordinate of
+		// zero is a coordinate, not the point at infinity), and the smallest y values likewise
+		r.Case("ec-smallest-coordinates-"+typ, func(c *fw.Case) {
+			cv := gen.Curve(typ)
+			p := cv.Params().P
+			found := 0
+			for k := int64(0); k < 400 && found < 6; k++ {
+				x := big.NewInt(k)
+				rhs := new(big.Int).Exp(x, big.NewInt(3), p)
+				if typ != gen.Secp256k1 {
+					rhs.Sub(rhs, new(big.Int).Mul(x, big.NewInt(3)))
+				}
+				rhs.Add(rhs, cv.Params().B)
+				rhs.Mod(rhs, p)
+				y := new(big.Int).ModSqrt(rhs, p)
+				if y == nil || !cv.IsOnCurve(x, y) {
+					continue
+				}
+				found++
+				c.Count("smallest-x-points", 1)
+				c16EC(c, typ, x, y)
+				c16EC(c, typ, x, new(big.Int).Sub(p, y))
+			}
+			if found == 0 {
+				c.Inconclusive("no-point-found")
+			}
+		})
 		// searched keys (leading-zero y appears with probability 1/256 per key)
 		for b := 0; b < r.N(8, 200); b++ {
 			r.Case("ec-searched-"+typ, func(c *fw.Case) {
